@@ -1897,7 +1897,7 @@ class CParser:
     def _parse_postfix_expression(self) -> c_ast.Node:
         result = self._try_parse_paren_type_name()
         if result is not None:
-            typ, mark, _ = result
+            typ, mark, lparen_tok = result
             # Disambiguate between casts and compound literals:
             #   (int) x   -> cast
             #   (int) {1} -> compound literal
@@ -1905,7 +1905,7 @@ class CParser:
                 init = self._parse_initializer_list()
                 self._accept("COMMA")
                 self._expect("RBRACE")
-                return c_ast.CompoundLiteral(typ, init)
+                return c_ast.CompoundLiteral(typ, init, self._tok_coord(lparen_tok))
             else:
                 self._reset(mark)
 
@@ -2112,11 +2112,14 @@ class CParser:
     # BNF: initializer_item : designation? initializer
     def _parse_initializer_item(self) -> c_ast.Node:
         designation = None
-        if self._peek_type() in {"LBRACKET", "PERIOD"}:
+        first_tok = self._peek()
+        if first_tok is not None and first_tok.type in {"LBRACKET", "PERIOD"}:
             designation = self._parse_designation()
         init = self._parse_initializer()
-        if designation is not None:
-            return c_ast.NamedInitializer(designation, init)
+        if designation is not None and first_tok is not None:
+            return c_ast.NamedInitializer(
+                designation, init, self._tok_coord(first_tok)
+            )
         return init
 
     # BNF: designation : designator_list '='
